@@ -162,6 +162,13 @@ func (ssc *defaultStatefulSetControl) ListRevisions(set *apps.StatefulSet) ([]*k
 		seen[local.Name] = true
 		// revisions controlled by another owner are not part of this set's history
 		if ref := metav1.GetControllerOfNoCopy(&local); ref != nil && ref.UID != set.GetUID() {
+			if local.Labels[helper.UpgradeToAdvancedStatefulSetAnn] == set.Name {
+				// a revision of the StatefulSet this set was upgraded from that the garbage collector has not
+				// orphaned yet: until it can be adopted the history is incomplete, and acting on it would mint a
+				// new revision and restart the pods the upgrade is meant to keep running
+				return nil, fmt.Errorf("revision %s/%s is marked for the upgrade of %s but is still controlled by %s %s, waiting for it to be orphaned",
+					local.Namespace, local.Name, set.Name, ref.Kind, ref.Name)
+			}
 			continue
 		}
 		res = append(res, &local)
